@@ -1,7 +1,7 @@
 (* C11 -- proofs about concentric_hexagons (Model/Geometry.v) against Spec/Geometry.v. *)
 From Coq Require Import ZArith List Bool Lia.
 Require Import Rig.Model.Base Rig.Generated.GenGeometryLinks Rig.Generated.GenGeometry
-        Rig.Model.Geometry Rig.Spec.Geometry Rig.Proofs.Geometry.
+        Rig.Generated.GenGeometryShapes Rig.Model.Geometry Rig.Spec.Geometry Rig.Proofs.Geometry.
 Import ListNotations.
 Open Scope Z_scope.
 Lemma hex_side_spec :
@@ -28,7 +28,7 @@ Proof.
   intros d Hd. induction n as [|n IH]; intros p; cbn [hex_side fst snd]; constructor.
   - intros H. apply (proj2 (hex_side_spec d n _)) in H. destruct H as (i & Hi & E).
     destruct p as [px py]. cbn [fst snd] in E.
-    unfold hex_dirs in Hd. cbn [In] in Hd.
+    unfold hex_dirs, hexagon_dirs in Hd. cbn [In] in Hd.
     destruct Hd as [<-|[<-|[<-|[<-|[<-|[<-|[]]]]]]]; cbn [fst snd] in E; injection E; lia.
   - apply IH.
 Qed.
@@ -55,7 +55,7 @@ Lemma ring_spec :
     forall q, In q (ring r c) <-> hexnorm (chip_sub q c) = Z.of_nat r.
 Proof.
   intros r [cx cy] Hr. unfold ring, ring_start. cbn [fst snd].
-  unfold hex_dirs. cbn [hex_sides].
+  unfold hex_dirs, hexagon_dirs. cbn [hex_sides].
   set (R := Z.of_nat r). assert (HR : 1 <= R) by lia.
   destruct (hex_side_spec (1, 1) r (cx, cy - R)) as [E0 M0]; cbn [fst snd] in E0, M0.
   rewrite E0. fold R in E0, M0 |- *.
@@ -167,7 +167,7 @@ Lemma hex_rings_spec :
 Proof.
   intros cx cy. induction count as [|count IH]; intros r Hr l; subst l.
   - cbn [hex_rings]. split; [constructor|]. split; [|exact I]. intros q. cbn [In]. lia.
-  - cbn [hex_rings fst snd].
+  - cbn [hex_rings fst snd]. unfold hexagon_layer_step.
     replace (cy - Z.of_nat r + 1 - 1) with (cy - Z.of_nat r) by lia.
     destruct (ring_spec r (cx, cy) Hr) as (E & N & M). unfold ring, ring_start in E, N, M.
     cbn [fst snd] in E, N, M. rewrite E.
@@ -212,6 +212,8 @@ Lemma hexagons_ok :
   forall R start, 0 <= R -> hexagons_spec R start (concentric_hexagons R start).
 Proof.
   intros R [cx cy] HR. unfold hexagons_spec, concentric_hexagons.
+  change (Z.to_nat hexagon_first_ring) with 1%nat. unfold hexagon_first_ring.
+  replace (R + 1 - 1) with R by lia.
   pose proof (hex_rings_spec cx cy (Z.to_nat R) 1 ltac:(lia)) as H. cbn zeta in H.
   replace (cy - Z.of_nat 1 + 1) with cy in H by lia.
   destruct H as (N & M & O). set (l := hex_rings (Z.to_nat R) 1 (cx, cy)) in *.
@@ -231,8 +233,50 @@ Qed.
 (* the guard 0 <= R is needed: for a negative radius the generator still yields the centre *)
 Lemma hexagons_negative_radius :
   forall R start, R < 0 -> concentric_hexagons R start = [start].
-Proof. intros R start H. unfold concentric_hexagons. destruct R; try lia. reflexivity. Qed.
+Proof.
+  intros R start H. unfold concentric_hexagons, hexagon_first_ring.
+  replace (R + 1 - 1) with R by lia. destruct R; try lia. reflexivity.
+Qed.
 
 Lemma ex_hexagons :
   concentric_hexagons 1 (0, 0) = [(0, 0); (0, -1); (1, 0); (1, 1); (0, 1); (-1, 0); (-1, -1)] /\ 0 <= 1.
 Proof. split; [reflexivity | lia]. Qed.
+
+(* a generator consumed part-way: the list for radius R begins with the list for any smaller radius, so the
+   first n chips yielded do not depend on how large a radius was asked for *)
+Lemma hex_rings_app :
+  forall cx cy c1 c2 r, (1 <= r)%nat ->
+    hex_rings (c1 + c2) r (cx, cy - Z.of_nat r + 1) =
+    hex_rings c1 r (cx, cy - Z.of_nat r + 1) ++ hex_rings c2 (r + c1) (cx, cy - Z.of_nat (r + c1) + 1).
+Proof.
+  intros cx cy. induction c1 as [|c1 IH]; intros c2 r Hr.
+  - cbn [hex_rings app plus]. rewrite Nat.add_0_r. reflexivity.
+  - cbn [plus hex_rings fst snd]. unfold hexagon_layer_step.
+    replace (cy - Z.of_nat r + 1 - 1) with (cy - Z.of_nat r) by lia.
+    destruct (ring_spec r (cx, cy) Hr) as (E & _ & _). unfold ring_start in E. cbn [fst snd] in E. rewrite E.
+    assert (Er : (cx, cy - Z.of_nat r) = (cx, cy - Z.of_nat (S r) + 1)) by (f_equal; lia).
+    rewrite Er, (IH c2 (S r) ltac:(lia)), <- app_assoc.
+    replace (S r + c1)%nat with (r + S c1)%nat by lia. reflexivity.
+Qed.
+
+Lemma hexagons_prefix :
+  forall r R start, 0 <= r <= R ->
+    exists tail, concentric_hexagons R start = concentric_hexagons r start ++ tail.
+Proof.
+  intros r R [cx cy] H. unfold concentric_hexagons.
+  change (Z.to_nat hexagon_first_ring) with 1%nat. unfold hexagon_first_ring.
+  replace (R + 1 - 1) with R by lia. replace (r + 1 - 1) with r by lia.
+  replace (Z.to_nat R) with (Z.to_nat r + Z.to_nat (R - r))%nat by lia.
+  pose proof (hex_rings_app cx cy (Z.to_nat r) (Z.to_nat (R - r)) 1 ltac:(lia)) as A.
+  replace (cy - Z.of_nat 1 + 1) with cy in A by lia. rewrite A.
+  eexists. cbn [app]. reflexivity.
+Qed.
+
+Lemma hexagons_prefix_firstn :
+  forall n r R start, 0 <= r <= R -> (n <= length (concentric_hexagons r start))%nat ->
+    firstn n (concentric_hexagons R start) = firstn n (concentric_hexagons r start).
+Proof.
+  intros n r R start H Hn. destruct (hexagons_prefix r R start H) as [tail ->].
+  rewrite firstn_app. replace (n - length (concentric_hexagons r start))%nat with 0%nat by lia.
+  cbn [firstn]. now rewrite app_nil_r.
+Qed.
